@@ -82,6 +82,14 @@ func (w *world) fatalf(f string, a ...any) {
 
 func workerFactory(probe *kit.Probe, replier *gen.PID, spinNs int64) gen.ProcessFactory {
 	return kit.Factory(&kit.ActorConfig{Label: "worker", Probe: probe, SpinNs: spinNs,
+		// the workers take their configuration from the pool's WorkerArgs, the original ones and
+		// every replacement alike
+		OnInit: func(a *kit.Actor, args ...any) error {
+			if len(args) != 2 || args[0] != "worker-config" || args[1] != 42 {
+				return fmt.Errorf("worker started with arguments %v instead of the configured [worker-config 42]", args)
+			}
+			return nil
+		},
 		OnCall: func(a *kit.Actor, from gen.PID, ref gen.Ref, req any) (any, error) {
 			it, ok := req.(Item)
 			if !ok {
@@ -134,7 +142,7 @@ func startWorld(t *rapid.T, size int, mbox int64, nsenders int, spinNs int64) (*
 	wf := workerFactory(w.probe, &w.replier, spinNs)
 	w.pool, err = node.Spawn(kit.PoolFactory(&kit.PoolConfig{Label: "pool", Probe: w.probe,
 		Options: func(args ...any) (act.PoolOptions, error) {
-			return act.PoolOptions{PoolSize: int64(size), WorkerMailboxSize: mbox, WorkerFactory: wf}, nil
+			return act.PoolOptions{PoolSize: int64(size), WorkerMailboxSize: mbox, WorkerFactory: wf, WorkerArgs: []any{"worker-config", 42}}, nil
 		}}), gen.ProcessOptions{})
 	if err != nil {
 		cleanup()
